@@ -128,7 +128,10 @@ Definition guardm (d : dstore) (st : mstep) : Prop :=
   match st with
   | MCreateFile => ~ HasI d                       (* a file is created only where none exists *)
   | MInsMailbox _ _ => HasI d                     (* ordinary mailboxes are created in an initialized store *)
-  | MTxDelete mb | MTxRename mb _ _ =>            (* the row addressed is not the INBOX row *)
+  | MTxDelete mb =>                               (* the row addressed is not the INBOX row *)
+      forall m, In m (mboxes (d_st d)) -> mb_id m = mb -> mb_name m <> INBOX
+  | MTxRename mb _ _ ps _ =>                      (* in an initialised store; no parent is INBOX; the row renamed is not INBOX *)
+      HasI d /\ Forall (fun p => p <> INBOX) ps /\
       forall m, In m (mboxes (d_st d)) -> mb_id m = mb -> mb_name m <> INBOX
   | _ => True
   end.
@@ -201,19 +204,48 @@ Qed.
 
 (** ---- one step ------------------------------------------------------------------------ *)
 
-Lemma rename_tx_ids s mb old new s' : rename_tx s mb old new = Some s' -> ids s' = ids s.
+Lemma rename_part_ids (old new : str) s1 mb cs s' :
+  match rename_row s1 mb new with
+  | None => None
+  | Some s2 => fold_left (fun acc c => match acc with
+                                       | None => None
+                                       | Some s0 => rename_row s0 (mb_id c) (new ++ skipn (length old) (mb_name c))
+                                       end) cs (Some s2)
+  end = Some s' -> ids s' = ids s1.
 Proof.
   assert (R1 : forall s mb new s', rename_row s mb new = Some s' -> ids s' = ids s).
   { intros s0 mb0 new0 s0' R. unfold rename_row in R. destruct (find_id s0 mb0) as [fm|]; [|inversion R; reflexivity].
     destruct (existsb _ _); [discriminate|]. inversion R. unfold ids. cbn [mboxes]. rewrite map_map.
     apply map_ext. intros m. destruct (mb_id m =? mb0); reflexivity. }
-  unfold rename_tx. destruct (rename_row s mb new) as [s1|] eqn:R; [|discriminate].
-  rewrite <- (R1 _ _ _ _ R). generalize (children s1 old). intros cs. clear R. revert s1.
-  induction cs as [|c r IH]; intros s1 H; simpl in H.
+  destruct (rename_row s1 mb new) as [s2|] eqn:R; [|discriminate].
+  rewrite <- (R1 _ _ _ _ R). clear R. revert s2.
+  induction cs as [|c r IH]; intros s2 H; simpl in H.
   - inversion H. reflexivity.
-  - destruct (rename_row s1 (mb_id c) _) as [s2|] eqn:R2.
-    + rewrite (IH s2 H). eapply R1; eauto.
+  - destruct (rename_row s2 (mb_id c) _) as [s3|] eqn:R2.
+    + rewrite (IH s3 H). eapply R1; eauto.
     + exfalso. clear -H. induction r; simpl in H; [discriminate|auto].
+Qed.
+
+(** the parents created by CREATE / RENAME: fresh ids, names from [ps], old rows kept *)
+Lemma after_parents_facts ps t : forall s,
+  NoDup (ids s) ->
+  NoDup (ids (after_parents s ps t)) /\ incl (mboxes s) (mboxes (after_parents s ps t)) /\
+  (forall m, In m (mboxes (after_parents s ps t)) -> In m (mboxes s) \/ In (mb_name m) ps).
+Proof.
+  induction ps as [|p r IH]; intros s N; [repeat split; auto; apply incl_refl|].
+  unfold after_parents in *. cbn [fold_left].
+  destruct (find_name s p) as [fm|].
+  - destruct (IH s N) as (A & B & C). repeat split; auto. intros m Hm. destruct (C m Hm); [now left|right; now right].
+  - destruct (create_mailbox_row s p t) as [[s' i]|] eqn:Cr.
+    + destruct (create_row_shape _ _ _ _ _ Cr) as (_ & Ei & Es).
+      assert (N' : NoDup (ids s')).
+      { subst s'. unfold ids. cbn [mboxes]. rewrite map_app. cbn [map mb_id]. apply NoDup_app_one; auto.
+        intros X. subst i. apply fresh_id_gt in X. lia. }
+      destruct (IH s' N') as (A & B & C). repeat split; auto.
+      * eapply incl_tran; [|exact B]. subst s'. cbn [mboxes]. apply incl_appl, incl_refl.
+      * intros m Hm. destruct (C m Hm) as [H|H]; [|right; now right].
+        subst s'. cbn [mboxes] in H. apply in_app_or in H. destruct H as [H|[<-|[]]]; [now left|right; now left].
+    + destruct (IH s N) as (A & B & C). repeat split; auto. intros m Hm. destruct (C m Hm); [now left|right; now right].
 Qed.
 
 (** without a file nothing creates rows *)
@@ -235,8 +267,6 @@ Proof.
   all: try (unfold store_message; cbn; exact Mb).
   all: try (cbn; rewrite Mb; reflexivity).
   all: try (destruct (existsb _ _); cbn; exact Mb).
-  destruct (rename_tx (d_st d) mb old new) as [s'|] eqn:R; cbn [opt_st d_st with_st]; auto.
-  apply mboxes_nil_ids. rewrite (rename_tx_ids _ _ _ _ _ R). now apply mboxes_nil_ids.
 Qed.
 
 Definition P2 (d : dstore) : Prop := NoDup (ids (d_st d)) /\ (mboxes (d_st d) = [] \/ HasI d).
@@ -299,24 +329,33 @@ Proof.
     + now apply NoDup_map_filter.
     + destruct M2 as [M2|M2]; [left; now rewrite M2|right; auto].
     + exact K.
-  - (* RENAME transaction *)
-    destruct (rename_tx (d_st d) mb old new) as [s'|] eqn:R; cbn [opt_st]; [|exact Self].
-    pose proof (rename_tx_ids _ _ _ _ _ R) as Ei.
-    unfold rename_tx in R. destruct (rename_row (d_st d) mb new) as [s1|] eqn:R1; [|discriminate].
-    destruct (rename_row_keeps _ _ _ _ R1 G) as (Ei1 & HI1 & K1).
-    assert (HI : HasI d -> In INBOX (names s')).
-    { assert (N1 : NoDup (ids s1)) by now rewrite Ei1.
-      intros HI. specialize (HI1 HI).
-      apply in_map_iff in HI1. destruct HI1 as (m0 & En0 & Hm0).
-      destruct (rename_fold_keeps new old (children s1 old) s1 s' m0 R Hm0) as [_ Hm']; auto.
-      - intros c Hc X. unfold children in Hc. apply filter_In in Hc. destruct Hc as [Hc P].
-        assert (c = m0) by (apply (NoDup_map_inj mb_id (mboxes s1)); auto).
-        subst c. rewrite En0, slash_not_in_inbox in P. discriminate.
-      - apply in_map_iff. exists m0. auto. }
-    unfold P2, HasI in *. cbn [d_st with_st]. repeat split; auto.
+  - (* RENAME transaction, parents included *)
+    destruct (_ && _); [|exact Self].
+    destruct (rename_tx7 (d_st d) mb old new ps t) as [s'|] eqn:R; cbn [opt_st]; [|exact Self].
+    destruct G as (GI & Gp & Gm).
+    unfold rename_tx7 in R. set (s1 := after_parents (d_st d) ps t) in *.
+    destruct (after_parents_facts ps t (d_st d) M1) as (N1 & Inc & Orig). fold s1 in N1, Inc, Orig.
+    pose proof (rename_part_ids old new s1 mb (children s1 old) s' R) as Ei.
+    destruct (rename_row s1 mb new) as [s2|] eqn:R1; [|discriminate].
+    assert (G1 : forall m, In m (mboxes s1) -> mb_id m = mb -> mb_name m <> INBOX).
+    { intros m Hm E. destruct (Orig m Hm) as [H|H]; [now apply Gm|].
+      intros X. rewrite X in H. rewrite Forall_forall in Gp. exact (Gp INBOX H eq_refl). }
+    destruct (rename_row_keeps _ _ _ _ R1 G1) as (Ei1 & _ & K1).
+    (* the INBOX row m0 of s1: its id is not mb, so the rename leaves it alone *)
+    assert (HI0 : exists m0, In m0 (mboxes s1) /\ mb_name m0 = INBOX).
+    { unfold HasI, names in GI. apply in_map_iff in GI. destruct GI as (m & En & Hm). exists m. split; auto. }
+    destruct HI0 as (m0 & Hm0s1 & En0).
+    assert (Nmb : mb_id m0 <> mb) by (intros X; exact (G1 m0 Hm0s1 X En0)).
+    assert (Hm0 : In m0 (mboxes s2)) by (apply K1; auto).
+    assert (N2 : NoDup (ids s2)) by now rewrite Ei1.
+    destruct (rename_fold_keeps new old (children s1 old) s2 s' m0 R Hm0) as [_ Hm']; auto.
+    { intros c Hc X. unfold children in Hc. apply filter_In in Hc. destruct Hc as [Hc P].
+      assert (c = m0) by (apply (NoDup_map_inj mb_id (mboxes s1)); auto).
+      subst c. rewrite En0, slash_not_in_inbox in P. discriminate. }
+    unfold P2, HasI in *. cbn [d_st with_st]. repeat split.
     + now rewrite Ei.
-    + destruct M2 as [M2|M2]; [left|right; auto].
-      apply mboxes_nil_ids. rewrite Ei. now apply mboxes_nil_ids.
+    + right. unfold HasI. cbn [d_st with_st]. apply in_map_iff. exists m0. auto.
+    + intros _. apply in_map_iff. exists m0. auto.
   - apply Opt. intros s' E. eapply SameMb_trans; [apply SameMb_set_next|eapply SameMb_reparent; eauto].
   - destruct (existsb _ _); [exact Self|apply Keep; reflexivity].
   - apply Keep. reflexivity.
@@ -350,7 +389,7 @@ Qed.
 
 Definition plainm (st : mstep) : bool :=
   match st with
-  | MCreateFile | MInsMailbox _ _ | MTxDelete _ | MTxRename _ _ _ => false
+  | MCreateFile | MInsMailbox _ _ | MTxDelete _ | MTxRename _ _ _ _ _ => false
   | _ => true
   end.
 
@@ -463,20 +502,19 @@ Proof.
       destruct (str_eqb (to_upper (cb :: rb)) INBOX); [exact I|].
       destruct (str_eqb (to_upper (ca :: ra)) INBOX) eqn:U.
       * destruct (find_name s (cb :: rb)); [exact I|]. destruct (find_name s INBOX); [|exact I].
-        destruct (create_mailbox_row _ _ _) as [[? ?]|]; [|exact I]. split; [exact R|]. split; exact I.
+        assert (Gp : guardsm_along d (parent_steps s (parents_of (cb :: rb)) t))
+          by (apply guardsm_inserts; auto; apply parent_steps_inserts).
+        apply guardsm_app. split; [exact Gp|].
+        destruct (create_mailbox_row _ _ _) as [[? ?]|]; [|exact I].
+        split; [|split; exact I]. cbn [guardm].
+        destruct (run_MB _ d M Gp) as [_ H]. exact (H R).
       * destruct (find_name s (ca :: ra)) as [m|] eqn:Fn; [|exact I]. destruct (find_name s (cb :: rb)); [exact I|].
-        set (ps := if contains_byte (cb :: rb) SLASH then parent_paths (cb :: rb) else []).
-        apply guardsm_app. split; [apply guardsm_inserts; auto; apply parent_steps_inserts|].
-        unfold s. rewrite parents_refines by auto. fold s. split; [|exact I]. cbn [guardm d_st with_st].
-        apply find_name_in in Fn. destruct Fn as [Hm En]. intros m' Hm' Ei.
-        assert (M' : MB (with_st d (after_parents s ps t))).
-        { unfold s. rewrite <- parents_refines by auto. apply run_MB; auto.
-          apply guardsm_inserts; auto. apply parent_steps_inserts. }
-        assert (m' = m).
-        { apply (NoDup_map_inj mb_id (mboxes (after_parents s ps t))); auto.
-          - apply (mb_ids _ M').
-          - now apply after_parents_incl. }
-        subst m'. rewrite En. now apply upper_not_inbox.
+        split; [|exact I]. cbn [guardm]. split; [exact R|]. split.
+        -- apply Forall_forall. intros p Hp. unfold parents_of in Hp. apply filter_In in Hp. destruct Hp as [_ Hp].
+           intros X. subst p. vm_compute in Hp. discriminate.
+        -- apply find_name_in in Fn. destruct Fn as [Hm En]. intros m' Hm' Ei.
+           assert (m' = m) by (apply (NoDup_map_inj mb_id (mboxes s)); auto; apply (mb_ids d M)).
+           subst m'. rewrite En. now apply upper_not_inbox.
   - destruct (ready d); [|exact I]. split; exact I.
   - destruct (ready d); [|exact I]. split; exact I.
 Qed.
